@@ -35,7 +35,8 @@ TRUSTED = [
     "IL semantics: lean/FalconModel/Exec.lean + Lift.lean (properties C04, C07 tie it to falcon's evaluator/executor)",
     "correspondence: harness/src/bin/c02.rs + harness/src/lift.rs + lean/Drivers/C02.lean (three-way run + syntactic IL comparison)",
     "one lemma (FalconProofs/C02/PpcCarry.lean addc_eq: the manual's 33-bit carry against the lifter's unsigned comparison) is "
-    "discharged by bv_decide; its _native.bv_decide axioms appear under ppc_lift_correct; all other proofs use only propext, "
+    "discharged by bv_decide; its _native.bv_decide axioms appear under ppc_lift_correct; the 64 closed byte identities of swl/swr "
+    "(UnalignedStore.lean *_byte_*) and ea_split also use bv_decide and appear under lift_correct_swl_swr; all other proofs use only propext, "
     "Classical.choice, Quot.sound",
     "capstone's decoding is NOT trusted: the interpreters decode the raw word; a capstone/lifter operand mix-up shows as a disagreement",
     smt_tie.TRUSTED,
@@ -210,12 +211,13 @@ PROVED_A = [
     "slt sltu slti sltiu ; movn movz ; mfhi mflo mthi mtlo ; mult multu mul ; lb lbu lh lhu lw ; sb sh sw ; add addi sub (no-overflow path; "
     "the overflow path: lift_overflow_stops) ; lwl lwr in both byte orders -- lift_correct_single: "
     "all fields, all states",
+    "mips/mipsel: swl swr in both byte orders -- lift_correct_swl_swr (premise: the aligned word is mapped)",
     "mips/mipsel: beq bne bgez bgtz blez bltz b j with any of the above in the delay slot -- lift_correct_pair",
     "ppc: addi/li addis/lis add subf addze (Rc) mr nop rlwinm/slwi (Rc) srawi (Rc) cmpwi cmplwi lbz lwz lwzu stw stwu stmw "
     "mflr mtlr mtctr b bl blr bctr -- ppc_lift_correct: all fields, all states (CR SO bits excepted: finding cr-so)",
 ]
 UNPROVED = [
     "mips/mipsel (differential only): div divu (zero-divisor finding), madd maddu msub msubu, "
-    "clz clo (loop graphs), swl swr (mirrored syntactically, not proved), ll sc pref sync, teq syscall break rdhwr, jr jal jalr bal bgezal bltzal (findings)",
+    "clz clo (loop graphs), ll sc pref sync, teq syscall break rdhwr, jr jal jalr bal bgezal bltzal (findings)",
     "ppc (differential only): bdnzl (finding: nop), conditional bclr forms",
 ]
